@@ -566,6 +566,24 @@ class StmtMixin:
                         self.havoc_location(loc, st, st.env)
         if yields:
             st.yielded = Sym("seq", self.fresh_term(st, f"{tag}_yielded", SeqV), Spec("seq", VAL))
+        rc = set(getattr(self.contract, "record_calls", []) or []) | set(self.contract.unmodelled)
+        if rc:
+            hit = set()
+            for top in node.body + getattr(node, "orelse", []):
+                for n in ast.walk(top):
+                    if isinstance(n, ast.Call):
+                        t = ast.unparse(n.func)
+                        if t in rc:
+                            hit.add(t)
+                        if isinstance(n.func, ast.Attribute) and n.func.attr == "append":
+                            t2 = ast.unparse(n.func.value)
+                            if any(t2.startswith(u) for u in self.contract.unmodelled):
+                                hit.add(t2)
+            if hit:
+                g = dict(st.notes.get("ghost_appends") or {})
+                for t in hit:
+                    g[t] = Sym("seq", self.fresh_term(st, f"{tag}_ghost", SeqV), Spec("seq", VAL))
+                st.notes["ghost_appends"] = g
 
     def callee_modifies(self, call: ast.Call):
         f = call.func
